@@ -4,6 +4,7 @@ CONSTANTS
   Cid <- MCCid
   Qof <- MCQof
   Transport = "tcp"
+  AnswerRcode = "ok"
   CheckQuestion = TRUE
   MaxSends = 4
   MaxSocks = 3
